@@ -511,6 +511,11 @@ def run(ctx):
                        "gaps between frames contain no adjacent AC BE (a gap may end in AC / start with BE)",
                        "parse never raises (needed only for totality; C02, repaired by 808478d)"]
     proofs_ok, detail = ctx.check_proofs(lib_targets=["theories/Lib/Bytes.vo"])
+    # C01 composed with C02's hub model (theories/C01/E2E.v, PropertyE2E.v): the receive path
+    # end to end, for every schema passing wf_schema and every protobuf codec.
+    ok2, detail2 = ctx.check_proofs(property_file="PropertyE2E.v")
+    if not ok2:
+        proofs_ok, detail = False, (detail if not proofs_ok else "") + "\nPropertyE2E: " + detail2
     ctx.log("proofs:", proofs_ok, detail.splitlines()[0][:200])
 
     # ---- real messages from the real hub and sender ---------------------------
